@@ -59,6 +59,11 @@ def gen_model(rng, idx):
   for j in range(int(rng.integers(1, 3))):
     x = qkeras.QDense(int(rng.integers(1, 5)), use_bias=bool(rng.integers(0, 2)), kernel_quantizer=pick(rng, WQ),
                       bias_quantizer=pick(rng, WQ[:6] + [None]), activation=pick(rng, AQ), name=f"d{idx}_{j}")(x)
+    if rng.integers(0, 4) == 0:
+      # the adaptive activation layer (fresh moving statistics) with its function-changing options
+      x = qkeras.QAdaptiveActivation(pick(rng, ["quantized_relu", "quantized_bits"]), int(rng.integers(3, 9)),
+                                     relu_upper_bound=pick(rng, [None, 0.5, 1.5]), relu_neg_slope=pick(rng, [0.0, 0.0, 0.25]),
+                                     po2_rounding=bool(rng.integers(0, 2)), symmetric=bool(rng.integers(0, 2)), name=f"qa{idx}_{j}")(x)
   return Model(inp, x, name=f"qm{idx}")
 
 
